@@ -39,7 +39,7 @@ MaxObj  == 2
 
 NoLive == [none |-> TRUE]
 
-Decl0 == [ext |-> 0, cons |-> <<"k0">>, nobj |-> 0, T |-> 1, t0 |-> 0, pval |-> 1, guess |-> 0, meth |-> "MS2", solver |-> "ipopt"]
+Decl0 == [ext |-> 0, cons |-> <<"k0">>, nobj |-> 0, T |-> 1, t0 |-> 0, pval |-> 1, qval |-> 1, guess |-> 0, meth |-> "MS2", solver |-> "ipopt"]
 
 NoSol == [none |-> TRUE]
 Init == /\ decl = Decl0 /\ live = NoLive /\ tflag = FALSE /\ dirty = FALSE /\ out = "ok" /\ sol = NoSol
@@ -70,6 +70,14 @@ SetValue(v) ==
      THEN /\ live' = [live EXCEPT !.pval = v]
           /\ decl' = IF "SetValue_NotStored" \in Devs THEN decl ELSE [decl EXCEPT !.pval = v]
      ELSE /\ decl' = [decl EXCEPT !.pval = v] /\ UNCHANGED live
+  /\ out' = "ok" /\ UNCHANGED <<tflag, dirty, sol>>
+
+(* set_value on a concatenation of two parameters: both values are assigned *)
+SetValueCat(v) ==
+  /\ IF tflag
+     THEN /\ live' = [live EXCEPT !.pval = v, !.qval = v]
+          /\ decl' = IF "SetValue_NotStored" \in Devs THEN decl ELSE [decl EXCEPT !.pval = v, !.qval = v]
+     ELSE /\ decl' = [decl EXCEPT !.pval = v, !.qval = v] /\ UNCHANGED live
   /\ out' = "ok" /\ UNCHANGED <<tflag, dirty, sol>>
 
 SetInitial(g) ==
@@ -115,6 +123,7 @@ Next == \/ \E c \in ConsIds : SubjectTo(c)
         \/ \E v \in Tvals : SetT(v)
         \/ \E v \in T0vals : SetT0(v)
         \/ \E v \in Pvals : SetValue(v)
+        \/ \E v \in {2, 3} : SetValueCat(v)
         \/ \E g \in Gvals : SetInitial(g)
         \/ Sample \/ Value \/ Jacobian \/ Solve \/ SolSample
         \/ Save
@@ -125,7 +134,7 @@ Spec == Init /\ [][Next]_vars
 (* Properties                                                              *)
 (***************************************************************************)
 ConsSeqs == UNION {[1..n -> ConsIds \cup {"k0"}] : n \in 0..MaxCons}
-TypeOK == /\ decl \in [ext : {0, 1}, cons : ConsSeqs, nobj : 0..MaxObj, T : Tvals, t0 : T0vals, pval : Pvals,
+TypeOK == /\ decl \in [ext : {0, 1}, cons : ConsSeqs, nobj : 0..MaxObj, T : Tvals, t0 : T0vals, pval : Pvals, qval : Pvals,
                        guess : {0} \cup Gvals, meth : Meths, solver : Solvers]
           /\ tflag \in BOOLEAN /\ dirty \in BOOLEAN /\ out \in {"ok", "raise"}
           /\ (tflag <=> live # NoLive)
